@@ -194,6 +194,8 @@ impl<T> Scheduler<T> {
 impl Sender {
     /// Send a runnable to the executor.
     fn send(&self, runnable: Runnable<usize>) {
+        #[cfg(calloop_verif)]
+        crate::verif::point(crate::verif::Site::ExecEnqueue);
         // Send on the channel.
         //
         // All we do with the lock is call `send`, so there's no chance of any state being corrupted on
@@ -216,6 +218,8 @@ impl Sender {
         }
 
         // If the executor is already awake, don't bother waking it up again.
+        #[cfg(calloop_verif)]
+        crate::verif::point(crate::verif::Site::ExecEnqueued);
         if self.notified.swap(true, Ordering::SeqCst) {
             return;
         }
@@ -227,6 +231,8 @@ impl Sender {
 
 impl<T> Drop for Executor<T> {
     fn drop(&mut self) {
+        #[cfg(calloop_verif)]
+        crate::verif::point(crate::verif::Site::ExecDrop);
         let active_tasks = self.state.active_tasks.borrow_mut().take().unwrap();
 
         // Wake all of the active tasks in order to destroy their runnables.
@@ -247,6 +253,8 @@ impl<T> Drop for Executor<T> {
 
         // Drain the queue in order to drop all of the runnables.
         while self.state.incoming.try_recv().is_ok() {}
+        #[cfg(calloop_verif)]
+        crate::verif::point(crate::verif::Site::ExecDropDrained);
     }
 }
 
@@ -316,10 +324,14 @@ impl<T> EventSource for Executor<T> {
                 .source
                 .process_events(readiness, token, |(), &mut ()| {
                     // Set to the unnotified state.
+                    #[cfg(calloop_verif)]
+                    crate::verif::point(crate::verif::Site::ExecFlagClear);
                     state.sender.notified.store(false, Ordering::SeqCst);
 
                     // Process runnables, but not too many at a time; better to move onto the next event quickly!
                     for _ in 0..1024 {
+                        #[cfg(calloop_verif)]
+                        crate::verif::point(crate::verif::Site::ExecDequeue);
                         let runnable = match state.incoming.try_recv() {
                             Ok(runnable) => runnable,
                             Err(_) => {
@@ -360,6 +372,8 @@ impl<T> EventSource for Executor<T> {
 
         // Re-ready the ping source if we need to re-run this handler.
         if !clear_readiness {
+            #[cfg(calloop_verif)]
+            crate::verif::point(crate::verif::Site::ExecRewake);
             self.ping.ping();
             Ok(PostAction::Continue)
         } else {
